@@ -1,7 +1,10 @@
-// Post-history cases for C12: after a short history of AddChannel calls the RX1
-// channel obtained from the channel index and the RX1 frequency obtained from the
-// uplink frequency must still denote the same existing downlink channel, for every
-// uplink channel of the band object (default and added ones).
+// Post-history cases for C12: after a history of AddChannel / DisableUplinkChannelIndex /
+// EnableUplinkChannelIndex calls the RX1 channel obtained from the channel index and the RX1
+// frequency obtained from the uplink frequency must still denote the same existing downlink
+// channel, for every uplink channel of the band object (default and added, enabled or not).
+// The FIRST RX1 lookup on each object is made after the first part of the history (nothing may
+// have been cached from the fresh state), then the history continues on the same object and
+// every channel is looked up again.
 package main
 
 import (
@@ -12,21 +15,18 @@ import (
 	"verifharness/internal/cq"
 )
 
-func rx1History(s *cases.Set, c bandcfg.Config, ops []bandcfg.Op, kind string) {
-	b, err := c.New()
-	if err != nil {
-		return
-	}
-	_, errs := bandcfg.Apply(b, ops)
+// rx1Rows adds one case per uplink channel of b, which is the object of configuration c after ops.
+func rx1Rows(s *cases.Set, c bandcfg.Config, b bandLike, ops []bandcfg.ChanOp, errs []bool, label, kind string) {
 	idxs := b.GetUplinkChannelIndices()
 	n := len(idxs)
+	opsTerm, errsTerm := bandcfg.ChanOps(ops), bandcfg.Bools(errs)
 	for _, ch := range idxs {
 		ch := ch
+		key := fmt.Sprintf("rx1hist:%s:ops=%s:ch=%d", c.Key(), label, ch)
 		u, err := b.GetUplinkChannel(ch)
 		if err != nil {
-			s.Fail(cases.GoFail{Key: fmt.Sprintf("rx1hist:%s:ops=%s:ch=%d", c.Key(), bandcfg.OpsKey(ops), ch),
-				What:   "GetUplinkChannelIndices lists an index that GetUplinkChannel rejects: " + err.Error(),
-				Replay: map[string]interface{}{"name": string(c.Name), "history": bandcfg.OpsReplay(ops), "channel": ch}})
+			s.Fail(cases.GoFail{Key: key, What: "GetUplinkChannelIndices lists an index that GetUplinkChannel rejects: " + err.Error(),
+				Replay: map[string]interface{}{"name": string(c.Name), "history": bandcfg.ChanOpsReplay(ops), "channel": ch}})
 			continue
 		}
 		var j int
@@ -47,20 +47,61 @@ func rx1History(s *cases.Set, c bandcfg.Config, ops []bandcfg.Op, kind string) {
 			return int64(v), err
 		})
 		s.Add(cases.Case{
-			Term: fmt.Sprintf("CRx1ChHist %d %s %s %d%%Z %s %d%%Z %s %s %s", c.Index, bandcfg.Ops(ops), errs, n, cq.Z(int64(ch)), u.Frequency, oIdx, oDown, oFreq),
-			Key:  fmt.Sprintf("rx1hist:%s:ops=%s:ch=%d", c.Key(), bandcfg.OpsKey(ops), ch), Kind: kind, Nontrivial: true,
-			Replay: map[string]interface{}{"api": "GetConfig(name, repeater, dwell); history; then for uplink channel ch: GetRX1ChannelIndexForUplinkChannelIndex(ch) -> j, GetDownlinkChannel(j).Frequency, GetRX1FrequencyForUplinkFrequency(GetUplinkChannel(ch).Frequency)",
-				"name": string(c.Name), "repeater": c.Repeater, "dwell400ms": c.Dwell, "history": bandcfg.OpsReplay(ops), "channel": ch,
+			Term: fmt.Sprintf("CRx1ChHist %d %s %s %d%%Z %s %d%%Z %s %s %s", c.Index, opsTerm, errsTerm, n, cq.Z(int64(ch)), u.Frequency, oIdx, oDown, oFreq),
+			Key:  key, Kind: kind, Nontrivial: true,
+			Replay: map[string]interface{}{"api": "b := GetConfig(name, repeater, dwell); history on b (no RX1 lookup on b before the history; lookups for all channels after each part); then for uplink channel ch: GetRX1ChannelIndexForUplinkChannelIndex(ch) -> j, GetDownlinkChannel(j).Frequency, GetRX1FrequencyForUplinkFrequency(GetUplinkChannel(ch).Frequency)",
+				"name": string(c.Name), "repeater": c.Repeater, "dwell400ms": c.Dwell, "history": bandcfg.ChanOpsReplay(ops), "channel": ch,
 				"uplink_frequency": u.Frequency, "observed_rx1_index": oIdx, "observed_downlink_frequency_at_rx1_index": oDown, "observed_rx1_frequency": oFreq}})
 	}
 }
 
+// rx1History: fresh object, part 1 of the history, all rows; part 2 on the same object, all rows again.
+// name: short label for long fixed histories (the replay carries the calls), "" = print the calls.
+func rx1History(s *cases.Set, c bandcfg.Config, name string, part1, part2 []bandcfg.ChanOp, kind string) {
+	b, err := c.New()
+	if err != nil {
+		return
+	}
+	label := name
+	if label == "" {
+		label = bandcfg.ChanOpsKey(part1)
+	}
+	errs := bandcfg.ApplyChanOps(b, part1)
+	rx1Rows(s, c, b, part1, errs, label, kind)
+	if len(part2) == 0 {
+		return
+	}
+	all := append(append([]bandcfg.ChanOp{}, part1...), part2...)
+	errs = append(errs, bandcfg.ApplyChanOps(b, part2)...)
+	if name == "" {
+		label += ";then:" + bandcfg.ChanOpsKey(part2)
+	} else {
+		label += ";then:" + name + "-part2"
+	}
+	rx1Rows(s, c, b, all, errs, label, kind)
+}
+
 func rx1Histories(s *cases.Set, r *cq.RNG, thorough bool, cfgs []bandcfg.Config) {
-	// corpus of past failures: EU868 with 868.3 MHz a second time for DR6 (250 kHz), then 867.1 MHz
-	// (seeded defect: AddChannel skipped the downlink entry for a frequency that already existed)
+	A, D, E := bandcfg.AddOp, bandcfg.DisableOp, bandcfg.EnableOp
+	// corpus of past failures (seeded defects):
 	for _, c := range cfgs {
-		if c.Name == "EU868" {
-			rx1History(s, c, []bandcfg.Op{{Freq: 868300000, MinDR: 6, MaxDR: 6}, {Freq: 867100000, MinDR: 0, MaxDR: 5}}, "rx1-channel-after-history-corpus")
+		switch {
+		case c.Name == "EU868":
+			// AddChannel skipped the downlink entry for a frequency that already existed:
+			// 868.3 MHz a second time for DR6 (250 kHz), then 867.1 MHz
+			rx1History(s, c, "", []bandcfg.ChanOp{A(868300000, 6, 6), A(867100000, 0, 5)}, nil, "rx1-channel-after-history-corpus")
+		case c.Name == "US915" && (!c.Repeater && !c.Dwell || thorough):
+			// RX1 frequencies memoised on the first lookup from the POSITION in the enabled list:
+			// sub-band 2 (all off, 8..15 and 65 on) selected before the first lookup, later 66 on, 8 off
+			var p1 []bandcfg.ChanOp
+			for i := 0; i < 72; i++ {
+				p1 = append(p1, D(i))
+			}
+			for i := 8; i < 16; i++ {
+				p1 = append(p1, E(i))
+			}
+			p1 = append(p1, E(65))
+			rx1History(s, c, "subband2", p1, []bandcfg.ChanOp{E(66), D(8), E(0)}, "rx1-channel-after-history-corpus")
 		}
 	}
 	for _, c := range cfgs {
@@ -70,30 +111,62 @@ func rx1Histories(s *cases.Set, r *cq.RNG, thorough bool, cfgs []bandcfg.Config)
 		}
 		base := bandcfg.UplinkFrequencies(b)
 		runs := bandcfg.UplinkRuns(b)
-		if len(base) == 0 || len(runs) == 0 {
+		nch := len(base)
+		if nch == 0 || len(runs) == 0 {
 			continue
 		}
 		top := runs[len(runs)-1][1]
 		lo0, hi0 := runs[0][0], runs[0][1]
 		fresh := func(k int) uint32 { return base[0] + uint32(k)*200000 }
-		if b.AddChannel(fresh(50), lo0, hi0) != nil {
-			// the band does not support extra channels: one refused call, nothing changes
-			if !c.Repeater && !c.Dwell || thorough {
-				rx1History(s, c, []bandcfg.Op{{fresh(50), lo0, hi0}}, "rx1-channel-after-refused-add")
-			}
-			continue
+		extra := b.AddChannel(fresh(50), lo0, hi0) == nil
+		big := nch > 16
+		main := !c.Repeater && !c.Dwell
+
+		// first channel off before the first lookup (every later channel moves one position up in
+		// the enabled list); then on again and the last one off
+		rx1History(s, c, "", []bandcfg.ChanOp{D(0)}, []bandcfg.ChanOp{E(0), D(nch - 1)}, "rx1-channel-after-history")
+		if extra {
+			dup := base[nch/2]
+			// a default frequency a second time with another DR range, then a new frequency; then the
+			// default channel of that frequency off
+			rx1History(s, c, "", []bandcfg.ChanOp{A(dup, top, top), A(fresh(5), lo0, hi0)}, []bandcfg.ChanOp{D(nch / 2), A(fresh(6), lo0, hi0)}, "rx1-channel-after-history")
+			// a new frequency twice (different DR ranges), another new one, a default one again
+			rx1History(s, c, "", []bandcfg.ChanOp{A(fresh(7), lo0, hi0), A(fresh(7), top, top), A(fresh(9), lo0, lo0), A(base[0], hi0, hi0)}, nil, "rx1-channel-after-history")
+		} else if main || thorough {
+			// one refused AddChannel, nothing changes
+			rx1History(s, c, "", []bandcfg.ChanOp{A(fresh(50), lo0, hi0)}, nil, "rx1-channel-after-refused-add")
 		}
-		dup := base[len(base)/2]
-		// a default frequency a second time with another DR range, then a new frequency
-		rx1History(s, c, []bandcfg.Op{{dup, top, top}, {fresh(5), lo0, hi0}}, "rx1-channel-after-history")
-		// a new frequency twice (different DR ranges), then another new one, then a default one again
-		rx1History(s, c, []bandcfg.Op{{fresh(7), lo0, hi0}, {fresh(7), top, top}, {fresh(9), lo0, lo0}, {base[0], hi0, hi0}}, "rx1-channel-after-history")
+		if big && (main || thorough) {
+			// the lower half off, then channel 3 on again
+			var p1 []bandcfg.ChanOp
+			for i := 0; i < nch/2; i++ {
+				p1 = append(p1, D(i))
+			}
+			rx1History(s, c, "lower-half-off", p1, []bandcfg.ChanOp{E(3)}, "rx1-channel-after-history")
+		}
 		n := 2
-		if thorough {
+		switch {
+		case thorough && big:
+			n = 8
+		case thorough:
 			n = 40
+		case big && !main:
+			n = 1
 		}
 		for k := 0; k < n; k++ {
-			rx1History(s, c, bandcfg.RandomHistory(r, base, runs, 1+r.Intn(5)), "rx1-channel-after-history")
+			p1 := bandcfg.RandomChanOps(r, base, runs, extra, nch, 1+r.Intn(5))
+			n1 := nch
+			f1 := append([]uint32{}, base...)
+			if extra {
+				for _, o := range p1 {
+					if o.Kind == 'A' {
+						n1++
+						f1 = append(f1, o.Freq)
+					}
+				}
+			}
+			p2 := bandcfg.RandomChanOps(r, f1, runs, extra, n1, 1+r.Intn(4))
+			rx1History(s, c, "", p1, p2, "rx1-channel-after-history")
 		}
 	}
 }
